@@ -256,7 +256,7 @@ def describe(cases, obs):
 
 
 CLAIM = {
-    'text': "Theorems (Coq) for every accumulator, seed and item sequence: streaming scan emits after item i the left fold of the first i items; reduce emits exactly one item at completion = the fold (seed for an empty key); streaming-last = reduce value; a terminator is applied once at completion; a raising step emits one mux error and leaves the accumulator unchanged; seed isolation between keys/lifetimes is C02 (state recreated at Create). Derived operators are expansions over scan mirrored from rxsci's definitions. copy.deepcopy/factory freshness is modelled not proved: tied by running mutating accumulators (list append, tuple seeds holding lists) on interleaved keys and reused slots. Oracle: Python left fold per lifetime.",
+    'text': "Theorems (Coq) for every accumulator, seed and item sequence: streaming scan emits after item i the left fold of the first i items; reduce emits exactly one item at completion = the fold (seed for an empty key); streaming-last = reduce value; a terminator is applied once at completion; a raising step emits one mux error and leaves the accumulator unchanged; seed isolation between keys/lifetimes is C02 (state recreated at Create), and C09_fresh_after_an_uncompleted_lifetime extends it to lifetimes that were not completed (ended by a mux error, key created again while live): for every pipeline of per-slot operators the refinement is re-proved under the weaker rule that a Create needs its slot free or held by the same key (RecreateProofs.v). Derived operators are expansions over scan mirrored from rxsci's definitions. copy.deepcopy/factory freshness is modelled not proved: tied by running mutating accumulators (list append, tuple seeds holding lists) on interleaved keys and reused slots. Oracle: Python left fold per lifetime.",
     'note': 'Trusted: Coq kernel+VM; hand-written model; aliasing between emitted items and state is outside the model; typed-array coercion modelled (coerce).',
     'technique': 'Coq proof (forward-simulation refinement of a slot-level model by per-key local machines, list-level induction) + vm_compute correspondence against /repo + model-free oracle',
 }
